@@ -31,7 +31,10 @@ def jsonable(v):
 def graph_result(g):
     nodes = [[v, sorted((k, jsonable(x)) for k, x in d.items() if k != "explored")] for v, d in g.nodes(data=True)]
     edges = sorted([min(a, b), max(a, b), sorted((k, jsonable(x)) for k, x in d.items())] for a, b, d in g.edges(data=True))
-    return {"nodes": nodes, "edges": edges}
+    # the order in which the graph lists its bonds is observable too (list(g.edges), bond block
+    # of a written molfile)
+    order = [[a, b] for a, b in g.edges()]
+    return {"nodes": nodes, "edges": edges, "edge_order": order}
 
 
 def run_op(op):
